@@ -4,6 +4,7 @@
 #define VF_RT_MAIN
 #include <functional>
 #include "vlib/ops.h"
+#include "vlib/sigstorm.h"
 
 using namespace vf;
 namespace vf { std::vector<TypeOps>& registry() { static std::vector<TypeOps> r; return r; } }
@@ -414,8 +415,62 @@ static void c17_constexpr() {
   clear_current();
 }
 
+// ================================================================= C17: fd reader/writer under interrupted and partial system calls
+// The byte-sink / byte-source contract on the medium where system calls really are partial: a blocking pipe with a 4 KiB kernel buffer,
+// a slow peer thread, and a signal storm (no SA_RESTART) on the thread inside the library call. Every writer must still produce the model's
+// byte stream and accept every call; the reader must deliver the model's bytes and fail only where the data ends.
+static void c17_fd_storm(uint64_t n) {
+  Rng r = case_rng("fd-storm", n, 77);
+  set_current("%s", case_desc("fd-storm", (int64_t)n, "storm").c_str());
+  // a random Prepare / Write(byte) / Write(block of 1,2,4,8-byte elements) sequence with blocks up to 96 KiB
+  struct Blk { int w; Bytes raw; };
+  std::vector<Blk> ops; Bytes model; int nops = 2 + (int)r.below(6);
+  for (int i = 0; i < nops; i++) { Blk b; static const int ws[] = {0, 1, 2, 4, 8}; b.w = ws[r.below(5)];
+    size_t bytes = b.w == 0 ? 1 : (r.below(3) == 0 ? 20000 + r.below(80000) : r.below(6000)); if (b.w) bytes -= bytes % (size_t)b.w;
+    b.raw.resize(bytes); for (auto& c : b.raw) c = (uint8_t)r.next(); model.insert(model.end(), b.raw.begin(), b.raw.end()); ops.push_back(std::move(b)); }
+  uint64_t sig0 = storm_delivered().load();
+  { int fds[2]; if (::pipe(fds) != 0) return; shrink_pipe(fds[1]);
+    SlowDrain drain(fds[0], n * 13 + 5); nop::Status<void> st; int failed_at = -1;
+    { nop::FdWriter w(fds[1]);
+      { SignalStorm storm(pthread_self(), 50);
+        for (int i = 0; i < nops && failed_at < 0; i++) { const Blk& b = ops[(size_t)i];
+          (void)w.Prepare(b.raw.size());
+          switch (b.w) { case 0: st = w.Write(b.raw[0]); break; case 1: st = w.Write(b.raw.data(), b.raw.data() + b.raw.size()); break;
+            case 2: st = w.Write((const uint16_t*)b.raw.data(), (const uint16_t*)(b.raw.data() + b.raw.size())); break; case 4: st = w.Write((const uint32_t*)b.raw.data(), (const uint32_t*)(b.raw.data() + b.raw.size())); break;
+            default: st = w.Write((const uint64_t*)b.raw.data(), (const uint64_t*)(b.raw.data() + b.raw.size())); break; }
+          if (!st) failed_at = i; } }
+    }   // FdWriter destroyed: write end closed
+    Bytes& got = drain.join();
+    rep().count("c17_fd_storm_writer_sequences"); rep().count("c17_writer_calls", (uint64_t)nops); rep().count("c17_writer_FdWriter<pipe under signals>", (uint64_t)nops);
+    std::string cd = case_desc("fd-storm", (int64_t)n, "storm", J().u("ops", (uint64_t)nops).u("bytes", model.size()).str());
+    if (failed_at >= 0) rep().violation("C17:writer:fd-signal-storm:refused", fmt("FdWriter on a blocking pipe under signals refused call %d (%zu bytes) with '%s'; every other writer accepts it", failed_at, ops[(size_t)failed_at].raw.size(), errname(st.error())), cd);
+    else if (got != model) { size_t d = 0; while (d < got.size() && d < model.size() && got[d] == model[d]) d++;
+      rep().violation("C17:writer:fd-signal-storm:bytes", fmt("FdWriter on a blocking pipe under signals produced %zu bytes, the byte-sink model %zu; first difference at %zu", got.size(), model.size(), d), cd); }
+  }
+  { int fds[2]; if (::pipe(fds) != 0) return; shrink_pipe(fds[1]);
+    SlowFeed feed(fds[1], model, n * 7 + 11);
+    { nop::FdReader rd(fds[0]); SignalStorm storm(pthread_self(), 50); size_t pos = 0; std::string cd = case_desc("fd-storm", (int64_t)n, "storm-read", J().u("bytes", model.size()).str());
+      for (int i = 0; i < nops; i++) { const Blk& b = ops[(size_t)i]; Bytes out(b.raw.size(), 0xEE); nop::Status<void> st;
+        (void)rd.Ensure(b.raw.size());
+        switch (b.w) { case 0: st = rd.Read(out.data()); break; case 1: st = rd.Read(out.data(), out.data() + out.size()); break;
+          case 2: st = rd.Read((uint16_t*)out.data(), (uint16_t*)(out.data() + out.size())); break; case 4: st = rd.Read((uint32_t*)out.data(), (uint32_t*)(out.data() + out.size())); break;
+          default: st = rd.Read((uint64_t*)out.data(), (uint64_t*)(out.data() + out.size())); break; }
+        rep().count("c17_reader_calls"); rep().count("c17_reader_FdReader<pipe under signals>");
+        if (!st) { rep().violation("C17:reader:fd-signal-storm:fails-early", fmt("FdReader on a slowly fed pipe under signals failed call %d with '%s' although %zu bytes were still to come", i, errname(st.error()), model.size() - pos), cd); break; }
+        if (memcmp(out.data(), model.data() + pos, out.size()) != 0) { rep().violation("C17:reader:fd-signal-storm:bytes", fmt("FdReader on a slowly fed pipe under signals delivered other bytes than the source holds (call %d)", i), cd); break; }
+        pos += out.size(); }
+      if (pos == model.size()) { uint8_t x; auto st = rd.Read(&x); if (st) rep().violation("C17:reader:fd-signal-storm:succeeds-past-the-end", "FdReader delivered a byte after the data was exhausted", cd); }
+      rep().count("c17_fd_storm_reader_sequences");
+    }
+  }
+  rep().count("c17_fd_storm_signals_delivered", storm_delivered().load() - sig0);
+  rep().note(hash_combine(hash_str("fd-storm"), hash_bytes(model.data(), std::min<size_t>(model.size(), 256)) ^ model.size()), true);
+  clear_current();
+}
+
 static void run_c17() {
   bool th = args().thorough();
+  if (args().only_type.empty() || args().only_type == "fd-storm") for (uint64_t n = 0; n < (th ? 4000u : 240u); n++) { if (args().only_case >= 0 ? (uint64_t)args().only_case != n : !mine(n)) continue; c17_fd_storm(n); }
   auto ral = alphabet(false, true, true, true);
   auto ral_noskip = alphabet(false, true, false, true);
   // sources of 0..64 bytes
